@@ -1,5 +1,5 @@
 """run the in-memory patch corpus (seeded changes / refactorings) selectively:
-   tools/corpuscheck.py seeded [substring]   |   tools/corpuscheck.py twins [substring] [Cnn ...]"""
+   tools/corpuscheck.py seeded [substring] [--as=Cnn,Cmm]  |  tools/corpuscheck.py twins [substring] [Cnn ...]"""
 import concurrent.futures
 import sys
 sys.path.insert(0, '/verif')
@@ -10,14 +10,22 @@ from usimlint.selftest import _worker
 def main(argv):
     kind = argv[0]
     sub = argv[1] if len(argv) > 1 else ''
-    props = set(a for a in argv[2:])
+    props = set(a for a in argv[2:] if not a.startswith('--as='))
+    other = [a[5:].split(',') for a in argv[2:] if a.startswith('--as=')]
     chosen = [v for v in corpus_variants() if
               (kind == 'seeded') == v['id'].startswith('seeded-') and sub in v['id']
               and (not props or v['property'] in props)]
+    if other:
+        # run a seeded change against the checks of other properties: which ones see it?
+        chosen = [dict(v, property=prop) for v in chosen for prop in other[0]]
     with concurrent.futures.ProcessPoolExecutor(max_workers=16) as pool:
         results = list(pool.map(_worker, [(v, None) for v in chosen]))
     bad = 0
     for r in results:
+        if other:
+            print('%-11s %-4s %-28s %s' % ('reported' if r['status'] == 'ok' else 'silent',
+                                           r['property'], r['id'], r.get('reported', [])[:3]))
+            continue
         if r['status'] != 'ok':
             bad += 1
             print('%-11s %-4s %-28s %s %s' % (r['status'], r['property'], r['id'],
